@@ -9,6 +9,7 @@ mod gen;
 mod sim;
 mod stub;
 mod clientsim;
+mod logsink;
 
 mod c01;
 mod c02;
